@@ -379,12 +379,11 @@ func (e *Executor) executeTarget(
 	}
 
 	if isTainted {
-		go func() {
-			err = e.taintCache.Clear(ctx, target.Label)
-			if err != nil {
-				logger.Errorf("Failed to remove taint from target %s: %v", target.Label, err)
-			}
-		}()
+		// Clear the taint before reporting the target as done: an un-awaited clear can lose
+		// against process exit, leaving the target tainted after it was successfully executed.
+		if clearErr := e.taintCache.Clear(ctx, target.Label); clearErr != nil {
+			logger.Errorf("Failed to remove taint from target %s: %v", target.Label, clearErr)
+		}
 	}
 
 	return dag.CacheMiss, nil
